@@ -545,40 +545,62 @@ theorem seqSetKids_strip (f : Forest) : ∀ n d vis f', seqSetKids n d vis f = .
       · simp only [pure, Except.pure] at h; cases h
         simp only [strip, er]
 
-theorem invE_of_strip (o r : Obj) (hh : stripH r.hdr = stripH o.hdr) (hk : strip r.kids = strip o.kids)
-    (ho : invE o) : invE r ∧ sameHead o r ∧ r.oids = o.oids := by
+theorem invO_of_strip (o r : Obj) (hh : stripH r.hdr = stripH o.hdr) (hk : strip r.kids = strip o.kids)
+    (ho : invO o) : invO r ∧ sameHead o r := by
   have e1 : r.hdr.name = o.hdr.name := by have := congrArg Hdr.name hh; simpa [stripH] using this
   have e2 : r.hdr.id = o.hdr.id := by have := congrArg Hdr.id hh; simpa [stripH] using this
   have e3 : r.hdr.kind = o.hdr.kind := by have := congrArg Hdr.kind hh; simpa [stripH] using this
   have e4 : r.hdr.oid = o.hdr.oid := by have := congrArg Hdr.oid hh; simpa [stripH] using this
   have e5 : r.hdr.visible = o.hdr.visible := by have := congrArg Hdr.visible hh; simpa [stripH] using this
-  obtain ⟨⟨hs, hi⟩, he⟩ := ho
-  refine ⟨⟨⟨?_, ?_⟩, ?_⟩, ⟨e1, e2, e3, e4⟩, ?_⟩
+  obtain ⟨hs, hi⟩ := ho
+  refine ⟨⟨?_, ?_⟩, ⟨e1, e2, e3, e4⟩⟩
   · have a : shapeO r = shapeOk (strip (.cons r.hdr r.kids .nil)) := by rw [strip_shape]; rfl
     have b : shapeO o = shapeOk (strip (.cons o.hdr o.kids .nil)) := by rw [strip_shape]; rfl
     rw [a]; rw [b] at hs
     simp only [strip, hh, hk] at hs ⊢
     exact hs
   · rw [e3, e2, e5, ← strip_ids, hk, strip_ids]; exact hi
-  · simp only [escO] at he ⊢
-    rw [e1, ← strip_esc, hk, strip_esc]; exact he
-  · simp only [Obj.oids, e4]
-    rw [← strip_oids, hk, strip_oids]
 
-/-- **`obj.data = d`** keeps the invariant, the head and the identities -/
-theorem setData_invE (o r : Obj) (d : DRef) (ho : invE o) (h : setData o d = .ok r) :
-    invE r ∧ sameHead o r ∧ r.oids = o.oids := by
+theorem escO_of_strip (o r : Obj) (hh : stripH r.hdr = stripH o.hdr) (hk : strip r.kids = strip o.kids)
+    (he : escO o = true) : escO r = true := by
+  have e1 : r.hdr.name = o.hdr.name := by have := congrArg Hdr.name hh; simpa [stripH] using this
+  simp only [escO] at he ⊢
+  rw [e1, ← strip_esc, hk, strip_esc]; exact he
+
+theorem oids_of_strip (o r : Obj) (hh : stripH r.hdr = stripH o.hdr) (hk : strip r.kids = strip o.kids) :
+    r.oids = o.oids := by
+  have e4 : r.hdr.oid = o.hdr.oid := by have := congrArg Hdr.oid hh; simpa [stripH] using this
+  simp only [Obj.oids, e4]
+  rw [← strip_oids, hk, strip_oids]
+
+/-- `obj.data = d` changes data fields only -/
+theorem setData_strip (o r : Obj) (d : DRef) (h : setData o d = .ok r) :
+    stripH r.hdr = stripH o.hdr ∧ strip r.kids = strip o.kids := by
   unfold setData at h
   split at h
-  · cases h; exact invE_of_strip o _ rfl rfl ho
+  · cases h; exact ⟨rfl, rfl⟩
   · split at h; · cases h
     split at h
     · rename_i kids' hk
       cases h
-      exact invE_of_strip o _ rfl (seqSetKids_strip _ _ _ _ _ hk) ho
+      exact ⟨rfl, seqSetKids_strip _ _ _ _ _ hk⟩
     · cases h
     · cases h
   · cases h
+
+theorem setData_invO (o r : Obj) (d : DRef) (ho : invO o) (h : setData o d = .ok r) : invO r ∧ sameHead o r :=
+  invO_of_strip o r (setData_strip o r d h).1 (setData_strip o r d h).2 ho
+
+theorem setData_esc (o r : Obj) (d : DRef) (ho : escO o = true) (h : setData o d = .ok r) : escO r = true :=
+  escO_of_strip o r (setData_strip o r d h).1 (setData_strip o r d h).2 ho
+
+theorem setData_oids (o r : Obj) (d : DRef) (h : setData o d = .ok r) : r.oids = o.oids :=
+  oids_of_strip o r (setData_strip o r d h).1 (setData_strip o r d h).2
+
+/-- **`obj.data = d`** keeps the invariant, the head and the identities -/
+theorem setData_invE (o r : Obj) (d : DRef) (ho : invE o) (h : setData o d = .ok r) :
+    invE r ∧ sameHead o r ∧ r.oids = o.oids :=
+  ⟨⟨(setData_invO o r d ho.1 h).1, setData_esc o r d ho.2 h⟩, (setData_invO o r d ho.1 h).2, setData_oids o r d h⟩
 
 theorem setAttr_invE (k : Str) (v : AVal) (o : Obj) (ho : invE o) :
     invE (setAttr o k v) ∧ sameHead o (setAttr o k v) ∧ (setAttr o k v).oids = o.oids :=
@@ -642,6 +664,22 @@ theorem shapeOk_keys_quoted (f : Forest) (h : shapeOk f = true) : ∀ n ∈ f.ke
 
 /-- a header without its visible keys -/
 def stripV (h : Hdr) : Hdr := { h with visible := [] }
+
+theorem selectStruct_spec (next : Nat) (o r : Obj) (keys : List Str) (n : Nat)
+    (h : selectStruct next o keys = .ok (r, n)) :
+    ∃ c, copyObj next o = .ok (c, n) ∧ r.kids = c.kids ∧ stripV r.hdr = stripV c.hdr := by
+  unfold selectStruct at h
+  simp only [bind, Except.bind] at h
+  cases hc : copyObj next o with
+  | error e => rw [hc] at h; cases h
+  | ok p =>
+    obtain ⟨out, n1⟩ := p
+    rw [hc] at h; simp only at h
+    split at h
+    · simp only [pure, Except.pure] at h
+      cases h
+      exact ⟨out, rfl, rfl, rfl⟩
+    · cases h
 
 /-- **`structure[(name, …)]`** (also Dataset): a copy restricted to the named children -/
 theorem selectStruct_invE (next : Nat) (o r : Obj) (keys : List Str) (n : Nat) (ho : invE o)
